@@ -9,6 +9,7 @@ import (
 	"os"
 	"path/filepath"
 	"sort"
+	"strconv"
 	"strings"
 	"time"
 
@@ -147,6 +148,7 @@ func (fr *frame) runBlock(st *PState, b *ssa.BasicBlock, pred *ssa.BasicBlock, v
 			fr.evalPhis(st, b, pred)
 			if backEdge {
 				fr.assertInvariants(st, b, ord, invs, "inv-preserve")
+				fr.assertSteps(st, b, ord)
 				return
 			}
 			fr.assertInvariants(st, b, ord, invs, "inv-entry")
@@ -159,6 +161,16 @@ func (fr *frame) runBlock(st *PState, b *ssa.BasicBlock, pred *ssa.BasicBlock, v
 				}
 				st.Assume(t)
 			}
+			if st.loopSnap == nil {
+				st.loopSnap = map[int]*PState{}
+			} else {
+				ns := make(map[int]*PState, len(st.loopSnap)+1)
+				for k, v := range st.loopSnap {
+					ns[k] = v
+				}
+				st.loopSnap = ns
+			}
+			st.loopSnap[ord] = st.Snapshot()
 			fr.runInstrs(st, b, pred, visits, true)
 			return
 		}
@@ -433,6 +445,8 @@ func (ex *Exec) reify(st *PState, v Val, t types.Type) T {
 		r := st.Fresh("opaque", ex.Sorts.SortOf(t))
 		r.Go = t
 		return r
+	case *ByteArrVal:
+		return v.term(st)
 	case *TupleVal:
 		bail("tuple used as a term")
 	}
@@ -619,6 +633,9 @@ func (st *PState) LoadPtr(p *PtrVal) Val {
 		if len(p.Path) == 0 {
 			return c
 		}
+		if ba, ok := c.(*ByteArrVal); ok {
+			return st.selPath(ba.term(st), p.Root, p.Path)
+		}
 		return st.selPath(c, p.Root, p.Path)
 	case PHeap:
 		_, h := st.Heap(p.Root)
@@ -704,6 +721,17 @@ func (st *PState) StorePtr(p *PtrVal, v Val) {
 			st.cells[p.Cell] = v
 			return
 		}
+		if ba, ok := c.(*ByteArrVal); ok && len(p.Path) == 1 && p.Path[0].Index != nil {
+			if i, err := strconv.Atoi(p.Path[0].Index.S); err == nil && i >= 0 && i < len(ba.Elems) {
+				nb := &ByteArrVal{Elems: append([]*T(nil), ba.Elems...)}
+				t := ex.reify(st, v, p.ElemType())
+				nb.Elems[i] = &t
+				st.cells[p.Cell] = nb
+				return
+			}
+			st.cells[p.Cell] = &ByteArrVal{Elems: make([]*T, len(ba.Elems)), Opaque: true}
+			return
+		}
 		ct := ex.reify(st, c, p.Root)
 		nv := st.updPath(ct, p.Root, p.Path, ex.reify(st, v, p.ElemType()))
 		st.cells[p.Cell] = st.Name("cell", nv)
@@ -772,6 +800,12 @@ func (fr *frame) step(st *PState, ins ssa.Instruction) {
 		if isNamed(et, "math/big", "Int") {
 			// new(big.Int): value semantics, the cell holds the IntV (non-nil, 0)
 			id := st.NewCell(T{S: "(mkIntV false 0)", Sort: SIntV, Go: types.NewPointer(et)})
+			st.env[ins] = &PtrVal{Kind: PLocal, Cell: id, Root: et}
+			return
+		}
+		if arr, ok := et.Underlying().(*types.Array); ok && isByteArray(et) && arr.Len() <= 64 {
+			// a local byte array ([]byte{c1, c2} literals): element-wise content
+			id := st.NewCell(&ByteArrVal{Elems: make([]*T, arr.Len())})
 			st.env[ins] = &PtrVal{Kind: PLocal, Cell: id, Root: et}
 			return
 		}
@@ -1209,4 +1243,36 @@ func (fr *frame) infeasible(st *PState) bool {
 	defer os.Remove(file)
 	status, _, _ := runSolver(Solvers[0], file, 2*time.Second)
 	return status == "unsat"
+}
+
+// ByteArrVal is the content of a local fixed-size byte array, element by element (nil = zero byte).
+type ByteArrVal struct {
+	Elems  []*T
+	Opaque bool
+}
+
+// term renders the array as a byte string: a literal when every element is a known constant.
+func (b *ByteArrVal) term(st *PState) T {
+	if !b.Opaque {
+		bs := make([]byte, len(b.Elems))
+		ok := true
+		for i, e := range b.Elems {
+			if e == nil {
+				continue
+			}
+			n, err := strconv.Atoi(e.S)
+			if err != nil || n < 0 || n > 255 {
+				ok = false
+				break
+			}
+			bs[i] = byte(n)
+		}
+		if ok {
+			return st.ex.Lits.Term(string(bs))
+		}
+	}
+	r := st.Fresh("bytearr", SBytes)
+	st.Assume(Not(Eq(r, bnilT)))
+	st.Assume(Eq(App(SInt, "blen", r), IntLit(int64(len(b.Elems)))))
+	return r
 }
